@@ -63,8 +63,6 @@ def canon_cache(info_cache):
         for t in info.times:
             if isinstance(t, dt.datetime):
                 ts.append(t7(t))
-            elif t == [None]:
-                ts.append("nonelist")
             else:
                 ts.append(repr(t))
         out.append([k, ts[0], ts[1], info.attr])
@@ -369,7 +367,8 @@ def dict_update(base, entries):
     return out
 
 
-# accepted-although-malformed classes: stable signatures of suspected defects (see notes/C15.md)
+# accepted-although-malformed classes: stable signatures (null-time-accepted was fixed by ace221c; a silent acceptance of a
+# null time is reported as a violation again)
 def accepted_signature(reason):
     if reason == "null-time":
         return "null-time-accepted"
